@@ -92,6 +92,10 @@ func (fr *frame) appendBuiltin(cc *ssa.CallCommon, args []Val, st *State, reach 
 			eq(sel(row, iv), ite(app("<", iv, s.L[2]), sel(h, s.L[0], at(s.L[1], iv)), sel(h, add.L[0], at(add.L[1], app("-", iv, s.L[2])))))) +
 			" :pattern (" + sel(row, iv) + ")))"
 		ex.assume(def)
+		// the same fact oriented on the source array, so that a witness index of the old slice carries over
+		kv := "k!app"
+		ex.assume("(forall ((" + kv + " Int)) (! " + imp(and(app("<=", s.L[1], kv), app("<", kv, app("+", s.L[1], s.L[2]))),
+			eq(sel(row, sub(kv, s.L[1])), sel(h, s.L[0], kv))) + " :pattern (" + sel(h, s.L[0], kv) + ")))")
 		// common special cases are given directly to help the solver
 		ex.assume(imp(eq(add.L[2], "1"), eq(sel(row, s.L[2]), sel(h, add.L[0], add.L[1]))))
 		ex.heapSet(st, key, srt, sto(h, r, row))
